@@ -407,7 +407,7 @@ def impl_case(case: dict) -> dict:
             files: list[list] = []  # per routes file: the batches (model indices) written to it, in order
             paths: list[str] = []
             for i, m in enumerate(case["models"]):
-                nd = next(x for x in nodes if x["is_model"] and x["name"] == (m["cls"] if m["form"] == "class" else m["table"]))
+                nd = next(x for x in nodes if x["is_model"] and (x["kind"], x["name"]) == (("class", m["cls"]) if m["form"] == "class" else ("call", m["table"])))
                 info = {"form": m["form"], "src_cols": nd["cols"], "src_table": nd["table"]}
                 if nd["parsed"] is None:
                     info["parse_error"] = nd.get("parse_error")
